@@ -434,3 +434,155 @@ Proof.
   - rewrite <- R1. ring.
   - rewrite <- R2. ring.
 Qed.
+
+(* ---- the vertex in its list: replaced by the facets+1 points, or left alone *)
+Theorem smooth_unchanged_when_too_large closed (l : list (PV ROps)) i v vp vn :
+  nth_error l i = Some v -> pv_type v = PvSmooth ->
+  prev_vertex closed l i = Some vp -> next_vertex closed l i = Some vn ->
+  (v2len (v2sub (pv_v vp) (pv_v v)) < smooth_d1 (pv_v vp) (pv_v v) (pv_v vn) (pv_radius v) \/
+   v2len (v2sub (pv_v vn) (pv_v v)) < smooth_d1 (pv_v vp) (pv_v v) (pv_v vn) (pv_radius v)) ->
+  smooth_vertex closed l i = (l, false).
+Proof.
+  intros Hv Ht Hp Hn Hbig. unfold smooth_vertex. rewrite Hv, Ht, Hn, Hp. cbn [pvtype_eqb negb].
+  unfold smooth_geom, smooth_fits. cbn [oltb ROps].
+  destruct Hbig as [H|H].
+  - destruct (Rltb_true (v2len (v2sub (pv_v vp) (pv_v v))) (smooth_d1 (pv_v vp) (pv_v v) (pv_v vn) (pv_radius v))) as [_ E].
+    rewrite (E H). reflexivity.
+  - destruct (Rltb_true (v2len (v2sub (pv_v vn) (pv_v v))) (smooth_d1 (pv_v vp) (pv_v v) (pv_v vn) (pv_radius v))) as [_ E].
+    rewrite (E H), orb_true_r. reflexivity.
+Qed.
+
+Theorem smooth_vertex_replaces closed (l : list (PV ROps)) i v vp vn :
+  nth_error l i = Some v -> pv_type v = PvSmooth ->
+  prev_vertex closed l i = Some vp -> next_vertex closed l i = Some vn ->
+  smooth_d1 (pv_v vp) (pv_v v) (pv_v vn) (pv_radius v) <= v2len (v2sub (pv_v vp) (pv_v v)) ->
+  smooth_d1 (pv_v vp) (pv_v v) (pv_v vn) (pv_radius v) <= v2len (v2sub (pv_v vn) (pv_v v)) ->
+  smooth_vertex closed l i =
+    (firstn i l ++ map plain (smooth_points (pv_v vp) (pv_v v) (pv_v vn) (pv_radius v) (pv_facets v)) ++ skipn (S i) l, true).
+Proof.
+  intros Hv Ht Hp Hn H0 H1. unfold smooth_vertex. rewrite Hv, Ht, Hn, Hp. cbn [pvtype_eqb negb].
+  unfold smooth_geom, smooth_fits. cbn [oltb ROps].
+  destruct (Rltb_false (v2len (v2sub (pv_v vp) (pv_v v))) (smooth_d1 (pv_v vp) (pv_v v) (pv_v vn) (pv_radius v))) as [_ E0].
+  destruct (Rltb_false (v2len (v2sub (pv_v vn) (pv_v v))) (smooth_d1 (pv_v vp) (pv_v v) (pv_v vn) (pv_radius v))) as [_ E1].
+  rewrite (E0 H0), (E1 H1). reflexivity.
+Qed.
+
+(* ---- Chamfer(size): a one-facet fillet of radius size*sqrtHalf, i.e. the two cut points *)
+Lemma chamfer_marks (size : R) (v : PV ROps) : size <> 0 ->
+  pv_Chamfer size v = mkPV (pv_rel v) PvSmooth (pv_v v) 1%Z (size * sqrtHalf).
+Proof.
+  intros H. unfold pv_Chamfer, ne0. cbn [oeqb o0 ROps].
+  destruct (Reqb_false size 0) as [_ E]. rewrite (E H). reflexivity.
+Qed.
+
+Theorem chamfer_two_points (vp v vn : V) (size : R) : corner_ok vp v vn ->
+  smooth_points vp v vn (size * sqrtHalf) 1 =
+  [smooth_tangent vp vp v vn (size * sqrtHalf); smooth_tangent vn vp v vn (size * sqrtHalf)].
+Proof.
+  intros OK. pose proof (smooth_points_length vp v vn (size * sqrtHalf) 1) as HL.
+  pose proof (smooth_starts_at_tangent vp v vn (size * sqrtHalf) 1 vp) as H0.
+  pose proof (smooth_ends_at_tangent vp v vn (size * sqrtHalf) 1 vp OK) as H1.
+  destruct (smooth_points vp v vn (size * sqrtHalf) 1) as [|p0 [|p1 [|p2 t]]]; cbn in HL; try lia.
+  change (Z.to_nat 1) with 1%nat in H1. cbn [List.nth] in H0, H1.
+  rewrite <- H0, <- H1 by lia. reflexivity.
+Qed.
+
+(* ------------------------------------------------------------ arcVertex, in coordinates *)
+Section ArcCoord.
+  (* (e, f): unit chord direction; h: half the chord; D: distance midpoint -> centre; s: side *)
+  Variables e f h D s : R.
+  Hypothesis UE : e * e + f * f = 1.
+  Hypothesis SS : s * s = 1.
+  Let r2 := h * h + D * D.
+  Let ux := - e * h - s * f * D.      (* a - c *)
+  Let uy := - f * h + s * e * D.
+  Let tx := e * h - s * f * D.        (* b - c *)
+  Let ty := f * h + s * e * D.
+  Lemma arc_len_u : ux * ux + uy * uy = r2 /\ tx * tx + ty * ty = r2.
+  Proof. unfold ux, uy, tx, ty, r2. split; nsatz. Qed.
+  Lemma arc_dot_cross : ux * tx + uy * ty = D * D - h * h /\ ux * ty - uy * tx = - 2 * s * h * D.
+  Proof. unfold ux, uy, tx, ty. split; nsatz. Qed.
+  (* rotation with cosine kap and sine chi, where kap*r2 = D^2 - h^2, chi*r2 = -2shD *)
+  Lemma arc_rot kap chi : kap * r2 = D * D - h * h -> chi * r2 = - 2 * s * h * D -> r2 <> 0 ->
+    kap * ux - chi * uy = tx /\ chi * ux + kap * uy = ty.
+  Proof.
+    intros HK HC NZ. split; apply (Rmult_eq_reg_l r2); try exact NZ.
+    - replace (r2 * (kap * ux - chi * uy)) with (kap * r2 * ux - chi * r2 * uy) by ring.
+      rewrite HK, HC. unfold ux, uy, tx, r2. nsatz.
+    - replace (r2 * (chi * ux + kap * uy)) with (chi * r2 * ux + kap * r2 * uy) by ring.
+      rewrite HK, HC. unfold ux, uy, ty, r2. nsatz.
+  Qed.
+End ArcCoord.
+
+(* sin A + sin B > sin (A + B) for positive angles with A + B <= PI *)
+Lemma sin_sum_gt (A B : R) : 0 < A -> 0 < B -> A + B <= PI -> 0 < sin A + sin B - sin (A + B).
+Proof.
+  intros HA HB HS. rewrite sin_plus.
+  assert (SA : 0 < sin A) by (apply sin_gt_0; lra).
+  assert (SB : 0 < sin B) by (apply sin_gt_0; lra).
+  assert (CA : cos A < 1).
+  { replace A with (2 * (A / 2)) by field. rewrite cos_2a_sin.
+    assert (0 < sin (A / 2)) by (apply sin_gt_0; lra). nra. }
+  assert (CB : cos B < 1).
+  { replace B with (2 * (B / 2)) by field. rewrite cos_2a_sin.
+    assert (0 < sin (B / 2)) by (apply sin_gt_0; lra). nra. }
+  nra.
+Qed.
+
+(* cross (Rot al u - u) (Rot be u - u) = |u|^2 (sin (be - al) + sin al - sin be) *)
+Lemma cross_rot_rot (al be : R) (u : V) :
+  v2cross (v2sub (rotv al u) u) (v2sub (rotv be u) u) = v2len2 u * (sin (be - al) + sin al - sin be).
+Proof. destruct u as [x y]. unfold rotv. rewrite sin_minus. rops. ring. Qed.
+
+(* ------------------------------------------------------------ arcVertex *)
+Definition arc_ok (a b : V) (r : R) : Prop :=
+  0 < v2len2 (v2sub b a) /\ r <> 0 /\ v2len2 (v2sub b a) <= 4 * (r * r).
+Definition arc_h (a b : V) : R := v2len (v2sub b a) / 2.
+Definition arc_D (a b : V) (r : R) : R := sqrt (r * r - arc_h a b * arc_h a b).
+
+Lemma arc_dmid (a b : V) : v2len (v2sub (v2muls (v2add a b) half) a) = arc_h a b.
+Proof.
+  unfold arc_h. pose proof (len_sq (v2sub b a)) as LS. pose proof (len2_nonneg (v2sub b a)) as LN.
+  assert (L0 : 0 <= v2len (v2sub b a)) by (unfold v2len; cbn [osqrt ROps]; apply sqrt_pos).
+  set (Lw := v2len (v2sub b a)) in *. clearbody Lw.
+  unfold v2len at 1. cbn [osqrt ROps]. apply sqrt_lem_1; [apply len2_nonneg | lra |].
+  destruct a as [ax ay], b as [bx by_]. revert LS LN. rops. intros LS LN. two_is_2. nra.
+Qed.
+
+Lemma arc_h_D (a b : V) r : arc_ok a b r ->
+  0 < arc_h a b /\ 0 <= arc_D a b r /\ arc_D a b r * arc_D a b r = r * r - arc_h a b * arc_h a b /\
+  0 < r * r.
+Proof.
+  intros (HL & HR & HC). pose proof (len_pos _ HL) as LP. pose proof (len_sq (v2sub b a)) as LS.
+  assert (HH : 0 <= r * r - arc_h a b * arc_h a b) by (unfold arc_h; nra).
+  repeat split.
+  - unfold arc_h. lra.
+  - apply sqrt_pos.
+  - unfold arc_D. apply sqrt_sqrt, HH.
+  - nra.
+Qed.
+
+Lemma arc_vectors (a b : V) r : arc_ok a b r ->
+  let u := v2normalize (v2sub b a) in let h := arc_h a b in let D := arc_D a b r in
+  let s := @sign ROps r in let c := arc_centre a b r in
+  v2sub a c = mkV2 (- vx u * h - s * vy u * D) (- vy u * h + s * vx u * D) /\
+  v2sub b c = mkV2 (vx u * h - s * vy u * D) (vy u * h + s * vx u * D).
+Proof.
+  intros OK. pose proof OK as (HL & HR & HC). cbv zeta.
+  destruct (arc_h_D a b r OK) as (HP & D0 & DD & RR).
+  unfold arc_centre. cbv zeta. rewrite arc_dmid.
+  assert (EM : omax ROps (o0 ROps) (osub ROps (omul ROps (oabs ROps r) (oabs ROps r))
+                                               (omul ROps (arc_h a b) (arc_h a b)))
+               = r * r - arc_h a b * arc_h a b).
+  { rops. replace (Rabs r * Rabs r) with (r * r) by (unfold Rabs; destruct (Rcase_abs r); ring).
+    apply Rmax_right. rewrite <- DD. apply Rle_0_sqr. }
+  rewrite EM. fold (arc_D a b r).
+  pose proof (normalize_scale _ HL) as SC.
+  assert (EH : v2len (v2sub b a) = 2 * arc_h a b) by (unfold arc_h; field).
+  rewrite EH in SC. clear EH EM.
+  set (u := v2normalize (v2sub b a)) in *. set (h := arc_h a b) in *. set (D := arc_D a b r) in *.
+  set (s := @sign ROps r). clearbody u h D s.
+  destruct a as [ax ay], b as [bx by_], u as [e f].
+  revert SC. rops. intros SC. injection SC as Sx Sy. two_is_2.
+  split; apply V_eq; rops; lra.
+Qed.
